@@ -30,6 +30,8 @@ func main() {
 	switch os.Args[1] {
 	case "prepare":
 		prepare(os.Args[2:])
+	case "eval":
+		eval(os.Args[2:])
 	default:
 		die("unknown command %s", os.Args[1])
 	}
@@ -70,8 +72,10 @@ type ProgSummary struct {
 	GogoErr    string            `json:"gogo_err"`
 	CompileErr string            `json:"compile_err"`
 	Roots      []string          `json:"roots"`
+	RootsOrdered []string        `json:"roots_ordered"`
 	Linked     bool              `json:"linked"`
 	ExpectFail bool              `json:"expect_fail"`
+	SHARuns    []string          `json:"sha_runs"`
 }
 
 func prepare(args []string) {
@@ -86,6 +90,9 @@ func prepare(args []string) {
 	fs.Parse(args)
 	if *out == "" {
 		die("--out required")
+	}
+	if abs, err := filepath.Abs(*out); err == nil {
+		*out = abs
 	}
 	t0 := time.Now()
 	e := &pipeline.Env{Run: *out, Src: filepath.Join(*out, "src"), Repo: *repo, Harness: *harness}
@@ -112,6 +119,14 @@ func prepare(args []string) {
 	t1 := time.Now()
 	rs := pipeline.Generate(e, progs)
 	timing["generate"] = pipeline.Since(t1)
+	// C14: repeated runs of the real plugin on the same request
+	repeats := 4
+	if *tier == "thorough" {
+		repeats = 24
+	}
+	tr := time.Now()
+	shaRuns := pipeline.Repeat(e, progs, repeats)
+	timing["repeat"] = pipeline.Since(tr)
 	if err := pipeline.WriteModule(e); err != nil {
 		die("%v", err)
 	}
@@ -144,12 +159,14 @@ func prepare(args []string) {
 		b, _ := json.Marshal(info)
 		ioutil.WriteFile(filepath.Join(e.Run, "info", p.ID+".json"), b, 0o644)
 		ioutil.WriteFile(filepath.Join(e.Run, "gen", p.ID+"_terraform.go"), []byte(r.Content), 0o644)
+		fb, _ := json.Marshal(r.FuncSrc)
+		ioutil.WriteFile(filepath.Join(e.Run, "gen", p.ID+".funcs.json"), fb, 0o644)
 		model.WriteString(p.ModelInput().String())
 		model.WriteString("\n")
 		ps := &ProgSummary{ID: p.ID, Family: p.Family, Role: p.Role, Props: p.Props, Exit: r.Exit, Stderr: r.Stderr, StdoutLen: r.StdoutLen, ParseErr: r.ParseErr,
 			RespError: r.RespError, Features: r.Features, NFiles: r.NFiles, FileName: r.FileName, SHA: r.SHA, ExtraBytes: r.ExtraBytes, Package: r.Package,
-			License: r.License, Funcs: r.Funcs, Types: r.Types, Imports: r.Imports, AstErr: r.AstErr, GogoErr: r.GogoErr, CompileErr: r.CompileErr, Roots: r.Roots,
-			Linked: r.Dir != "" && r.CompileErr == "" && !p.NoRun, ExpectFail: p.ExpectFail}
+			License: r.License, Funcs: r.Funcs, Types: r.Types, Imports: r.Imports, AstErr: r.AstErr, GogoErr: r.GogoErr, CompileErr: r.CompileErr, Roots: r.Roots, RootsOrdered: r.RootsOrdered,
+			Linked: r.Dir != "" && r.CompileErr == "" && !p.NoRun, ExpectFail: p.ExpectFail, SHARuns: shaRuns[p.ID]}
 		sort.Strings(ps.Types)
 		sum.Programs = append(sum.Programs, ps)
 	}
